@@ -23,6 +23,8 @@ CONSTANTS
   Modes = {"process", "miner"}
   Prices = {%s}
   KnownRefund = %s
+  Versions = {%s}
+  AllFull = %s
   GenMode = "%s"
 %s
 CHECK_DEADLOCK FALSE
@@ -39,8 +41,11 @@ POOL1 = 300000          # single transactions
 POOL3 = 243000          # fits two "ample" plain transfers (2 * 121000) and a little more
 
 
-def m_cfg(maxtx, alphabet, pool, known="TRUE", prices="1, 2, 3"):
-    return CFG % ("SPECIFICATION Spec", maxtx, alphabet, pool, "all", prices, known, "none", INV)
+ALLV = "1, 2, 3, 4, 5"
+
+
+def m_cfg(maxtx, alphabet, pool, known="TRUE", prices="1, 2, 3", versions="5", allfull="FALSE"):
+    return CFG % ("SPECIFICATION Spec", maxtx, alphabet, pool, "all", prices, known, versions, allfull, "none", INV)
 
 
 SIG_INV = """INVARIANT CacheTransparent
@@ -49,11 +54,11 @@ VIEW View"""
 
 
 def msig_cfg(maxres):
-    return CFG % ("SPECIFICATION Spec", maxres, "sig", POOL1, "all", "1, 2, 3", "TRUE", "none", SIG_INV)
+    return CFG % ("SPECIFICATION Spec", maxres, "sig", POOL1, "all", "1, 2, 3", "TRUE", "5", "FALSE", "none", SIG_INV)
 
 
-def g_cfg(maxtx, alphabet, pool, mode="leaf", prices="1, 2, 3"):
-    return CFG % ("INIT Init\nNEXT Next", maxtx, alphabet, pool, "one", prices, "TRUE", mode, "CONSTRAINT Leaf")
+def g_cfg(maxtx, alphabet, pool, mode="leaf", prices="1, 2, 3", versions="5", allfull="FALSE"):
+    return CFG % ("INIT Init\nNEXT Next", maxtx, alphabet, pool, "one", prices, "TRUE", versions, allfull, mode, "CONSTRAINT Leaf")
 
 
 def behaviours_of(res):
@@ -64,7 +69,7 @@ def behaviours_of(res):
 
 def nontrivial(b):
     """Non-trivial: a sequence of at least two transactions, or a single transaction whose class is not the plain valid one."""
-    if b.get("kind") in ("sig", "sigseq"):
+    if b.get("kind") in ("sig", "sigseq", "vsweep"):
         return True
     txs = b.get("txs", [])
     if len(txs) >= 2:
@@ -81,16 +86,19 @@ def generate(ctx):
             behs += json.load(open(os.path.join(wdir, f)))["behaviours"]
     nw = len(behs)
     # M: exhaustive design-level runs (known refund accounting searched past)
-    m1 = ctx.tlc_must("TxApply", m_cfg(1, "full", POOL1), name="M_classes", timeout=900, coverage=not quick)
-    m3 = ctx.tlc_must("TxApply", m_cfg(3 if quick else 4, "seq", POOL3), name="M_sequences", timeout=1500)
-    # ... and once without the weakening: the design-level counterexample of the known finding is exported and replayed
+    full = "FALSE" if quick else "TRUE"
+    # every class combination under YouV5, and under YouV1..YouV4 (quick: those with the next nonce; thorough: all of them)
+    m1 = ctx.tlc_must("TxApply", m_cfg(1, "full", POOL1, versions=ALLV, allfull=full), name="M_classes", timeout=900, coverage=not quick)
+    m3 = ctx.tlc_must("TxApply", m_cfg(3 if quick else 4, "seq", POOL3, versions="3, 4, 5"), name="M_sequences", timeout=1500)
+    # ... and without the weakening: the design-level counterexamples of the known findings are exported and replayed
     mk = ctx.tlc_must("TxApply", m_cfg(1, "full", POOL1, known="FALSE"), name="M_refund_cex", timeout=900, count=False)
+    mk2 = ctx.tlc_must("TxApply", m_cfg(1, "seq", POOL1, known="FALSE", versions="3"), name="M_legacy_cex", timeout=900, count=False)
     design_cex = []
-    for m in (m1, m3, mk):
+    for m in (m1, m3, mk, mk2):
         for v in m.printed:
             if isinstance(v, dict) and v.get("kind") == "CEX":
                 design_cex.append(v["clause"])
-                behs.append({"kind": "apply", "mode": v["mode"], "pool": v["pool"], "txs": v["h"]})
+                behs.append({"kind": "apply", "mode": v["mode"], "pool": v["pool"], "ver": v["ver"], "txs": v["h"]})
     # signature part: one transaction object (24 classes x 15 mutations) resolved under every sequence of up to 3 (4) signers,
     # with the sender cache as state
     msig = ctx.tlc_must("TxApply", msig_cfg(3 if quick else 4), name="M_sender_cache", timeout=900)
@@ -99,15 +107,18 @@ def generate(ctx):
         raise vlib.Undecided("design-level violation in the signature part (%s): specification error" % msig.violated)
     ctx.cov["design_violation"] = m1.violated or m3.violated
     ctx.cov["design_cex_known_refund"] = mk.violated
+    ctx.cov["design_cex_known_legacy"] = mk2.violated
     if getattr(m1, "zero_actions", None):
         ctx.cov["coverage_zero_actions"] = m1.zero_actions
     ncex = len(behs) - nw
     # G1: every class combination, both call patterns; every sequence of three of the reduced alphabet; signature cases
-    g1 = ctx.tlc_must("TxApply", g_cfg(1, "full", POOL1), name="G1_classes", timeout=900)
-    g3 = ctx.tlc_must("TxApply", g_cfg(3, "seq", POOL3), name="G1_sequences", timeout=900)
+    g1 = ctx.tlc_must("TxApply", g_cfg(1, "full", POOL1, versions=ALLV, allfull=full), name="G1_classes", timeout=900)
+    g3 = ctx.tlc_must("TxApply", g_cfg(3, "seq", POOL3, versions="5" if quick else "3, 4, 5"), name="G1_sequences", timeout=900)
     gs = ctx.tlc_must("TxApply", g_cfg(0, "seq", POOL1, mode="sig"), name="G1_signatures", timeout=300)
     gq = ctx.tlc_must("TxApply", g_cfg(2 if quick else 3, "sig", POOL1, mode="sigseq"), name="G1_sender_cache", timeout=600)
-    b1, b3, bs = behaviours_of(g1), behaviours_of(g3), behaviours_of(gs) + behaviours_of(gq)
+    # V sweep: 24 classes x network ids {1, 2, 99} x every V in 0 .. 2*net + 40
+    gv = ctx.tlc_must("TxApply", g_cfg(0, "seq", POOL1, mode="vsweep"), name="G1_v_sweep", timeout=300)
+    b1, b3, bs = behaviours_of(g1), behaviours_of(g3), behaviours_of(gs) + behaviours_of(gq) + behaviours_of(gv)
     rnd = random.Random(ctx.seed)
     if quick:
         # the quick tier keeps every class combination with price 1 or 3 and a seeded half of the sequences
@@ -116,7 +127,7 @@ def generate(ctx):
     n1 = len(behs)
     # G2: random longer sequences over the full alphabet
     depth = 5 if quick else 7
-    g2 = ctx.tlc_must("TxApply", g_cfg(depth, "full", 2 * POOL3), name="G2_simulate", timeout=900,
+    g2 = ctx.tlc_must("TxApply", g_cfg(depth, "full", 2 * POOL3, versions=ALLV, allfull="TRUE"), name="G2_simulate", timeout=900,
                       simulate={"num": 150 if quick else 4000}, depth=depth + 1)
     sim = behaviours_of(g2)
     rnd.shuffle(sim)
@@ -141,7 +152,7 @@ def judge(ctx, behs):
     trace = ctx.path("trace.ndjson")
     info = ctx.drive("txapply", trace, behaviours=bpath)
     ctx.cov["traces_validated_against_impl"] += len(behs)
-    ctx.cov["evaluations"] += sum(len(b.get("txs", [])) or len(b.get("muts", [])) or len(b.get("seq", [])) for b in behs)
+    ctx.cov["evaluations"] += sum(len(b.get("txs", [])) or len(b.get("muts", [])) or len(b.get("seq", [])) or len(b.get("vs", [])) for b in behs)
     ctx.cov["distinct_nontrivial"] += len({json.dumps(b, sort_keys=True) for b in behs if nontrivial(b)})
     # T (verdict)
     res, _ = vlib.monitor(ctx, "TxApply_Mon", "TxApply_Mon.cfg", trace, behaviours=bpath, replay_meta={"driver": "txapply"}, timeout=1500)
@@ -193,13 +204,15 @@ def run(ctx):
     ctx.cov["rule"] = ("behaviours = stored witnesses + design counterexamples + every transaction class combination (sender x nonce x "
                        "limit x value x recipient/payload x price) under both call patterns + every sequence of three transactions of the "
                        "reduced alphabet against a pool fitting two + signature cases (class x mutation) + sender-cache cases (class x mutation x "
-                       "every sequence of up to 2 (thorough 3) home/foreign signers on one object) + simulated longer sequences; "
+                       "every sequence of up to 2 (thorough 3) home/foreign signers on one object) + V sweep (class x network id x every V in 0..2*net+40) + simulated longer sequences; the class combinations are run under "
+                       "protocol version 5 and under versions 1..4 (quick: those with the next nonce); "
                        "non-trivial = a sequence of >= 2 transactions, a signature case, or a single transaction that is not the plain "
                        "valid transfer class; distinct by JSON")
     ctx.assumptions += ["ECDSA/secp256k1 itself is trusted",
                         "the value a staking transaction stakes is the value in its payload (msg.Value is ignored by the staking converter)",
                         "amounts: balances <= 5*10^6 LU, gas price 1..3, block gas pool 243000..486000",
-                        "protocol version 5 parameters (scaled), EVM rules of the fixture chain (Istanbul)",
+                        "protocol versions YouV1..YouV5, each on its own fixture chain with the same scaled parameter table (master signatures off), "
+                        "EVM rules of the fixture chain (Istanbul)",
                         "errors other than the three up-front reasons (intrinsic gas after purchase, value not affordable) are judged "
                         "through the miner's snapshot/revert wrapper only (DESIGN section 9, 'Refused up front')"]
     behs, design_cex = generate(ctx)
